@@ -5,6 +5,7 @@
   out-of-fuel outcome, so no theorem silently depends on a default.
 -/
 import LiquidModel.Model.Ast
+set_option linter.unusedVariables false
 namespace Liquid
 
 /-- The output sink: accepted fragments (one per successful non-empty `write!` site) and how many
